@@ -245,10 +245,18 @@ def tags(ctx):
     try:
         pairs, sets = tables.tag_tables()
     except tables.TableError as e:
-        # the tie (translator) broke: search with the reviewed copy of the tables for a concrete tag that is now mistreated
-        ctx.failing('the short-form tag tables can no longer be regenerated from rules/mod.rs: %s' % e, {'class': 'translator', 'problem': str(e)}, found=False)
+        # the translator no longer recognises the shape of the tables (possibly a harmless rewrite): the reviewed copy is used
+        # and compared below, tag by tag and payload by payload, with what the three loaders DO. The tie then holds by that
+        # exhaustive correspondence - unless the source names a tag the reviewed copy does not know, which only the translator
+        # could have told apart
         j = json.load(open(os.path.join(VERIF, 'inventory', 'tag_tables.json')))
         pairs, sets = [tuple(x) for x in j['pairs']], j['sets']
+        okb, detail = tables.behavioural_check('tag_tables', os.path.join(ctx.wd, 'tables_tags_c11'))
+        if not okb:
+            ctx.failing('the short-form tag tables can no longer be regenerated from rules/mod.rs (%s) and the loader does not behave as the reviewed copy says: %s' % (e, detail),
+                        {'class': 'translator', 'problem': str(e), 'detail': detail}, found=False)
+        else:
+            ctx.notes['tag_tables_confirmed_behaviourally'] = 'translator: %s; %s' % (e, detail)
     long_of = dict(pairs)
     single, seq = sets['SINGLE_VALUE_FUNC_REF'], sets['SEQUENCE_VALUE_FUNC_REF']
     ops, meta = [], []
